@@ -9,6 +9,7 @@ import (
 
 	"verifharness/lib"
 	"verifharness/props/c01"
+	"verifharness/props/c02"
 	"verifharness/props/c05"
 	"verifharness/props/c06"
 	"verifharness/props/c07"
@@ -27,6 +28,7 @@ import (
 
 var table = map[string]func(lib.Opts){
 	"C01": c01.Run,
+	"C02": c02.Run,
 	"C03": copyx.Run("C03"),
 	"C04": copyx.Run("C04"),
 	"C14": copyx.Run("C14"),
